@@ -1,4 +1,6 @@
 """C04 - every reported source location is in bounds, on char boundaries, faithful."""
+from vlib import common
+from checks import c04_labels
 from checks import span_cover as sc
 
 PID = "C04"
@@ -8,14 +10,27 @@ def run(rep, tier, seed):
     sc.run(PID, "c04:", rep, tier, seed,
            "lexer (token spans: theorems), pull parser events and diagnostics labels (Model/Parser.v: spans computed "
            "by the same arithmetic as the Rust code and compared exactly with the implementation); analysis-stage "
-           "labels and codesnake rendering are observed on the implementation only",
+           "labels: every label expression of event_consumer.rs enumerated and classified (Model/AnalysisLabels.v), "
+           "yaml_find_key_position modelled and compared with the implementation through the labels of the "
+           "'Unsupported value for key' and 'Time overriden' warnings (checks/c04_labels.py); codesnake rendering is "
+           "observed on the implementation only",
            "theorems cover the token stream (tiling, adjacency, faithfulness, span_ok) for every input and Unicode "
-           "classification; event/AST/label spans are decided by exact correspondence + monitor")
-    rep.assumptions = ["AST nodes are the event payloads moved into blocks (src/ast.rs): their spans are the event spans",
+           "classification; every span of every parser event and parse-stage label for every input "
+           "(C04_event_spans_ok, C04_diag_labels_ok); every label any analysis-stage site can produce from the events of "
+           "any input (C04_analysis_labels_ok; hypothesis: serde_yaml's error index is a character boundary of the front "
+           "matter, checked on every rejected front matter of the run); the correspondence ties the models to the code",
+           extra=c04_labels.extra)
+    rep.coverage["analysis_label_key_positions"] = c04_labels.LAST_STATS
+    rep.assumptions = ["oracle hypothesis yaml_index_ok: the index of serde_yaml's error location is a character boundary "
+                       "of the text it parsed (monitored: checks/c04_labels.py and the c04:label monitor)",
+                       "AST nodes are the event payloads moved into blocks (src/ast.rs): their spans are the event spans",
                        "report rendering (codesnake) is third-party code: exercised, not modelled"]
 
 
-setup = sc.setup
+def setup():
+    sc.setup()
+    common.build_harness(["yamlkey"], release=True)
+    common.build_runner("yamlkey", c04_labels.DEPS, commons=("common_n.ml",))
 
 
 def replay(rp):
